@@ -229,6 +229,7 @@ fn shift(f: Fault, by: u64) -> Fault {
         Fault::WritesFail { at } => Fault::WritesFail { at: at + by },
         Fault::Interrupted { at, n } => Fault::Interrupted { at: at + by, n },
         Fault::Transient { at, n } => Fault::Transient { at: at + by, n },
+        Fault::Stall { at } => Fault::Stall { at: at + by },
     }
 }
 
@@ -737,7 +738,17 @@ impl Scenario for SyncAsync {
     fn rule(&self) -> String {
         "one artefact (archive image library-written or foreign, logical archive to write, header, directory, entry list) pushed through the sync face and the async face (async under the simulator's executor with Pending); readers compared value for value, writers byte for byte where no codec is involved and via the independent reader + both crate readers otherwise; distinct = distinct serialized cases; non-trivial = artefact non-empty".into()
     }
-    fn generate(&self, rng: &mut Rng, tier: Tier, _run: u64) -> Value {
+    fn generate(&self, rng: &mut Rng, tier: Tier, run: u64) -> Value {
+        if run < 2 {
+            // once per batch and direction: metadata of tens of MiB (a few KiB once compressed),
+            // moved in large pieces so the case stays cheap
+            let ic = *rng.pick(&[2u8, 2, 4, 1]);
+            let mut a = draw_archive(rng, SizeClass::Tens, ic);
+            a.meta = crate::case::Meta { kind: 6, seed: rng.next_u64(), n: 17 + rng.below(20) as u32 };
+            let pol = Policy { rd: Xfer::Random(200_000), wr: Xfer::Random(200_000), pend: crate::disk::Pend { rate: 20, burst: 2, inline: 50, ctl: true }, seed: rng.next_u64() };
+            let call = if run == 0 { Call::Write { a, scramble: 1 } } else { Call::Open { src: ImageSrc::Written { a, face: Face::Sync, w: Policy::plain(), scramble: 1 }, range: RangeSpec::ALL } };
+            return to_value(&SaCase { call, pol });
+        }
         let call = draw_call(rng, tier);
         to_value(&SaCase { call, pol: if rng.chance(85) { Policy::draw(rng, true) } else { Policy::plain() } })
     }
@@ -810,6 +821,22 @@ impl Scenario for SyncAsync {
             }
             _ => {
                 ensure!(s == a, format!("C12:results-differ:{tag}"), "sync face gives {}; async face gives {}", s.brief(), a.brief());
+            }
+        }
+        // lookups after a disturbed lookup (transient stream failure; async: cancelled request)
+        // return on either face what the undisturbed sync reader returns
+        if let Call::Open { src, range } | Call::ReadDirs { src, range } = &c.call {
+            if let (Out::Obs(_) | Out::Text(_), true) = (&s, matches!(c.call, Call::Open { .. })) {
+                let img = src.materialise(ctx, "C12")?;
+                let ids: Vec<u64> = img.expected.keys().copied().filter(|i| range.contains(*i)).collect();
+                for face in [Face::Sync, Face::Async] {
+                    let disk = SimDisk::new(img.image.clone(), &c.pol);
+                    let handle = disk.clone();
+                    let opened = if *range == RangeSpec::ALL { sut::open(disk, face)? } else { sut::open_partial(disk, face, *range)? };
+                    let Ok(mut pm) = opened else { continue };
+                    let mut rng = Rng::new(c.pol.seed ^ 0xC12);
+                    crate::scen_foreign::disturbed_lookups("C12", &mut pm, &handle, img.header.data_offset, &img.addr, &img.expected, &ids, face, &mut rng, 2, false, ctx)?;
+                }
             }
         }
         Ok(())
